@@ -231,7 +231,42 @@ fn collect_flow_count_flags_from_nodes(nodes: &[Node], targets: &mut BTreeMap<St
                         collect_flow_count_flags_from_expr(e, targets);
                     }
                 }
+                // Choice texts are kept as source text: look inside their inline logic too.
+                for text in [&choice.start_text, &choice.choice_only_text]
+                    .into_iter()
+                    .chain(choice.selected_text.as_ref())
+                {
+                    if let Ok(dynamic) = parse_dynamic_string(text) {
+                        collect_flow_count_flags_from_dynamic_string(&dynamic, targets);
+                    }
+                }
+                for tag in choice
+                    .start_tags
+                    .iter()
+                    .chain(&choice.choice_only_tags)
+                    .chain(&choice.selected_tags)
+                {
+                    collect_flow_count_flags_from_dynamic_string(tag, targets);
+                }
                 collect_flow_count_flags_from_nodes(&choice.body, targets);
+            }
+            Node::Sequence(sequence) => {
+                for branch in &sequence.branches {
+                    collect_flow_count_flags_from_nodes(branch, targets);
+                }
+            }
+            Node::Tag(dynamic) => {
+                collect_flow_count_flags_from_dynamic_string(dynamic, targets);
+            }
+            Node::Divert(divert) | Node::ThreadDivert(divert) => {
+                for arg in &divert.arguments {
+                    collect_flow_count_flags_from_expr(arg, targets);
+                }
+            }
+            Node::TunnelDivert { args, .. } | Node::TunnelOnwardsWithTarget { args, .. } => {
+                for arg in args {
+                    collect_flow_count_flags_from_expr(arg, targets);
+                }
             }
             Node::Conditional {
                 condition,
@@ -271,6 +306,23 @@ fn collect_flow_count_flags_from_nodes(nodes: &[Node], targets: &mut BTreeMap<St
                 }
             }
             _ => {}
+        }
+    }
+}
+
+fn collect_flow_count_flags_from_dynamic_string(
+    dynamic: &DynamicString,
+    targets: &mut BTreeMap<String, i32>,
+) {
+    for part in &dynamic.parts {
+        match part {
+            DynamicStringPart::Expression(e) => collect_flow_count_flags_from_expr(e, targets),
+            DynamicStringPart::Sequence(sequence) => {
+                for branch in &sequence.branches {
+                    collect_flow_count_flags_from_nodes(branch, targets);
+                }
+            }
+            DynamicStringPart::Text(_) => {}
         }
     }
 }
